@@ -57,7 +57,7 @@ def gen_program(rnd, nmin=3, nmax=12, faults=True, all_labelled=False, pcr=True,
         elif c < 0.92 and data:
             s = stmt("FDB", "fdb", vals=[ex(lit(rnd, [0, 1, 0x1234, 0xFFFF, -2])) for _ in range(rnd.randint(1, 3))])
         elif c < 0.95 and data:
-            s = stmt("FCC", "fcc", chars=[ord(ch) for ch in rnd.choice(["HELLO", "A", "a1B2", "X,Y", "two words", "a;b"])], expr=ex({"k": "none", "n": 34, "s": "", "sp": "dq"}))
+            s = stmt("FCC", "fcc", chars=[ord(ch) for ch in rnd.choice(["HELLO", "A", "a1B2", "X,Y", "two words", "a;b", "tab\there", "\t"])], expr=ex({"k": "none", "n": 34, "s": "", "sp": "dq"}))
         elif c < 0.98 and data:
             s = stmt("RMB", "rmb", expr=ex(lit(rnd, [0, 1, 2, 5, 40])))
         else:
